@@ -21,6 +21,10 @@ func (xp xpathImpl) resolvePath(seg *xpath.Path, s *Selection) (*Selection, erro
 		if err != nil || sel == nil {
 			return nil, err
 		}
+		if seg.Next == nil {
+			// path ends at this container, it exists
+			return sel, nil
+		}
 		return xp.resolvePath(seg.Next, sel)
 	}
 	if meta.IsList(m) {
@@ -50,6 +54,14 @@ func (xp xpathImpl) resolvePath(seg *xpath.Path, s *Selection) (*Selection, erro
 		return nil, nil
 	}
 	if meta.IsLeaf(m) {
+		if seg.Expr == nil {
+			// no comparison, true when leaf has a value
+			v, err := s.GetValue(seg.Ident)
+			if err != nil || v == nil {
+				return nil, err
+			}
+			return s, nil
+		}
 		match, err := xp.resolveExpression(seg.Ident, seg.Expr, s)
 		if err != nil || !match {
 			return nil, err
